@@ -360,6 +360,8 @@ EXTRA_TEXT = {
            "another type, in several orders, against the real VerifyProof.",
     "C12": " applyTypes_fails_at_any_position / doc_path_context_failure_is_error: a type-scoped context that cannot be applied makes every path resolution into that node an error, at whatever position of "
            "the type list the type stands (the harness probes all five resolvers with contexts of 15 kinds at every position).",
+    "C02": " merklize_into_caller_tree: with WithMerkleTree the entries are added to the caller's tree (every entry a leaf, earlier leaves kept, an existing key an error); driven by C03 with empty and "
+           "pre-populated caller trees under every option order.",
     "C20": " interleaving_results_total (every load ends with a document or an error, never with neither, under every schedule) and interleaving_failing_url (a URL the origin does not serve is an error "
            "for every thread); the harness's bursts include failing URLs of six kinds.",
     "C08": " smt_resolver_failure_rejected: a resolver error (whatever document accompanies it) or an answer without state information is a rejection, also for the genesis state; the harness's resolver errors "
